@@ -151,9 +151,6 @@ func acceptingEdgesDeep(fn *ssa.Function, acc acceptFn, depth int) map[edge]bool
 			continue
 		}
 		inner := acceptingEdgesDeep(h, acc, depth+1)
-		if len(inner) == 0 {
-			continue
-		}
 		reach := reachable(h, inner)
 		goodGuarded := true // GOOD (true / nil) is returned only behind accepting edges
 		sawGood := false
@@ -178,6 +175,13 @@ func acceptingEdgesDeep(fn *ssa.Function, acc acceptFn, depth int) map[edge]bool
 					known, good = true, false
 				} else if nonNilAt(v, hb) {
 					known, good = true, false // "if err != nil { return nil, err }"
+				}
+			}
+			if !known && isBool(v.Type()) {
+				// "return id, err == nil": the returned truth value is itself the accepting comparison
+				if onTrue, onFalse := accOnValue(acc, v); onTrue && !onFalse {
+					sawGood = true
+					continue
 				}
 			}
 			if good {
@@ -942,4 +946,14 @@ func nonNilAt(v ssa.Value, b *ssa.BasicBlock) bool {
 		}
 	}
 	return false
+}
+
+// accOnValue applies an edge classifier to a boolean value as if it were the condition of a branch.
+func accOnValue(acc acceptFn, v ssa.Value) (onTrue, onFalse bool) {
+	defer func() {
+		if recover() != nil {
+			onTrue, onFalse = false, false
+		}
+	}()
+	return acc(&ssa.If{Cond: v})
 }
